@@ -12,7 +12,7 @@ from vfw import scen_gen, scenario
 from vfw.core import Violation, jsonable
 
 PROPERTY = "C18"
-SIZES = {"quick": 1200, "thorough": 40000}
+SIZES = {"quick": 3000, "thorough": 40000}
 RULE = (
     "Hypothesis draws a scenario from the shared corpus (simple / face-connected / ufunc / autoparse / metric / transform "
     "families, scalar and vector, multi-axis, calls built to raise included) and a sequence of 1-3 calls over its call list, with "
